@@ -28,24 +28,27 @@ static bool same(const Model &a, const Model &b) {
   return true;
 }
 static bool no_dup(const Model &m) { for (int i = 0; i < m.n && i < 6; i++) for (int j = i + 1; j < m.n && j < 6; j++) if (m.k[i] == m.k[j]) return false; return true; }
-// start state: NSTART distinct valid single-char members parsed from a header "k=v,k=v,..."
+// Symbolic characters range over a small concrete alphabet (valid, invalid and separator characters): the value
+// is an if-then-else over constants, so zero tests / strlen fold during symbolic execution and every allocation
+// size stays concrete. The character-level grammar itself is decided for ALL bytes by the regex queries (Q1).
+static char pick_key_char() { uint8_t s = nondet_u8() & 7; return s == 0 ? 'a' : s == 1 ? 'b' : s == 2 ? 'c' : s == 3 ? '0' : s == 4 ? 'A' : s == 5 ? ',' : s == 6 ? '=' : '@'; }
+static char pick_val_char() { uint8_t s = nondet_u8() & 7; return s == 0 ? '1' : s == 1 ? '2' : s == 2 ? 'x' : s == 3 ? '~' : s == 4 ? ' ' : s == 5 ? ',' : s == 6 ? '=' : '\x7f'; }
+// start state: NSTART distinct valid single-char members, built through the real KeyValueProperties::AddEntry
 static nostd::shared_ptr<TraceState> start_state(Model &m) {
-  char hdr[4 * NSTART + 1];
+  nostd::shared_ptr<TraceState> ts(new TraceState(NSTART));
   m.n = NSTART; m.shape_ok = true;
   for (int i = 0; i < NSTART; i++) {
-    char k = (char)nondet_u8(); char v = (char)nondet_u8();
+    char k = pick_key_char(); char v = pick_val_char();
     VASSUME(valid_k(k) && valid_v(v));
     for (int j = 0; j < i; j++) VASSUME(m.k[j] != k);
     m.k[i] = k; m.v[i] = v;
-    hdr[4 * i] = k; hdr[4 * i + 1] = '='; hdr[4 * i + 2] = v; hdr[4 * i + 3] = ',';
+    ts->kv_properties_->AddEntry(nostd::string_view(&m.k[i], 1), nostd::string_view(&m.v[i], 1));
   }
-  return TraceState::FromHeader(nostd::string_view(hdr, NSTART ? 4 * NSTART - 1 : 0));
+  return ts;
 }
 ENTRY h_set() {
   Model before; auto ts = start_state(before);
-  Model parsed; collect(*ts, parsed);
-  VASSERT(same(parsed, before), "FromHeader yields the members of the header in order");
-  char key = (char)nondet_u8(); char val = (char)nondet_u8();
+  char key = pick_key_char(); char val = pick_val_char();
   auto r = ts->Set(nostd::string_view(&key, 1), nostd::string_view(&val, 1));
   Model after; collect(*r, after);
   Model orig; collect(*ts, orig);
@@ -71,7 +74,7 @@ ENTRY h_set() {
 }
 ENTRY h_delete() {
   Model before; auto ts = start_state(before);
-  char key = (char)nondet_u8();
+  char key = pick_key_char();
   auto r = ts->Delete(nostd::string_view(&key, 1));
   Model after; collect(*r, after);
   Model orig; collect(*ts, orig);
@@ -86,10 +89,13 @@ ENTRY h_delete() {
 ENTRY h_header_roundtrip() {
   Model before; auto ts = start_state(before);
   std::string h = ts->ToHeader();
+  VASSERT(h.size() == (NSTART ? 4 * NSTART - 1 : 0), "ToHeader writes k=v members separated by commas");
+  bool text = true;
+  for (int i = 0; i < NSTART; i++) text = text && h[4 * i] == before.k[i] && h[4 * i + 1] == '=' && h[4 * i + 2] == before.v[i] && (i + 1 == NSTART || h[4 * i + 3] == ',');
+  VASSERT(text, "ToHeader renders the members in list order");
   auto back = TraceState::FromHeader(h);
   Model again; collect(*back, again);
   VASSERT(same(again, before), "ToHeader followed by FromHeader reproduces the same ordered list");
-  VASSERT(h.size() == (NSTART ? 4 * NSTART - 1 : 0), "ToHeader writes k=v members separated by commas");
 }
 // any header bytes: every kept member is valid, at most kLimit members, no out-of-bounds access
 static bool key_ok(nostd::string_view k) {
@@ -106,9 +112,9 @@ static bool value_ok(nostd::string_view v) {
   return v[v.size() - 1] != ' ';
 }
 ENTRY h_from_any_header() {
-  size_t n = nondet_u8(); VASSUME(n <= LEN);
-  char *buf = (char *)__builtin_malloc(n ? n : 1);
-  for (size_t i = 0; i < LEN; i++) if (i < n) buf[i] = (char)nondet_u8();
+  const size_t n = LEN;                               // one query per exact length: exactly sized heap object
+  char *buf = (char *)__builtin_malloc(LEN ? LEN : 1);
+  for (size_t i = 0; i < LEN; i++) buf[i] = (char)nondet_u8();
   auto ts = TraceState::FromHeader(nostd::string_view(buf, n));
   bool all_ok = true; int cnt = 0;
   ts->GetAllEntries([&](nostd::string_view k, nostd::string_view v) noexcept { cnt++; all_ok = all_ok && key_ok(k) && value_ok(v); return true; });
@@ -118,9 +124,9 @@ ENTRY h_from_any_header() {
 }
 // tokenizer: views stay inside the buffer, terminates
 ENTRY h_tokenizer() {
-  size_t n = nondet_u8(); VASSUME(n <= LEN);
-  char *buf = (char *)__builtin_malloc(n ? n : 1);
-  for (size_t i = 0; i < LEN; i++) if (i < n) buf[i] = (char)nondet_u8();
+  const size_t n = LEN;
+  char *buf = (char *)__builtin_malloc(LEN ? LEN : 1);
+  for (size_t i = 0; i < LEN; i++) buf[i] = (char)nondet_u8();
   common::KeyValueStringTokenizer tk(nostd::string_view(buf, n));
   VASSERT(tk.NumTokens() <= n, "NumTokens is at most the header length");
   bool inside = true; int calls = 0; bool more = true;
